@@ -31,7 +31,9 @@ EXPLANATION = (
     'R-C07.2 also requires that no atomic() is opened with savepoint=False (inside a caller\'s transaction nothing could be rolled back); '
     'R-C07.5 (as rewritten) under the default valuation (transactional group, no explicit new-transaction mark) no committing call is reachable in run_sql, and the explicit mark of a batch derives only from the statements\' own mark; R-C07.7 register_global_custom_migrations() is released on every exit, exceptional ones included; R-C07.8 deferred SQL of new models runs in the executor scope that created them (known finding).'
     ' '
-    'R-C07.8 second clause: the models a batch creates and the evolutions it applies share one sql_executor scope; R-C07.9 no finally block of the package is left through return/break/continue (the in-flight commit/rollback error would be discarded).')
+    'R-C07.8 second clause: the models a batch creates and the evolutions it applies share one sql_executor scope; R-C07.9 no finally block of the package is left through return/break/continue (the in-flight commit/rollback error would be discarded).'
+    ' '
+    'R-C07.10 (= R-C17.9) no __exit__ of the package returns anything but None/False.')
 NOT_DECIDED = (
     'Actual rollback behaviour of SQLite/Django for every failing statement '
     'index, and retry equivalence: these need execution (fault enumeration) '
@@ -862,7 +864,42 @@ def r9_finally_does_not_swallow(ctx, rule_id='R-C07.9'):
                'is left through return/break/continue')
 
 
+def r10_exit_never_suppresses(ctx, rule_id='R-C07.10'):
+    """A truthy return value of __exit__ suppresses the exception raised in
+    the with-block.  Every __exit__ of the package returns nothing, None or
+    False: returning the result of a call (e.g. "did we re-enable constraint
+    checking?") makes the failure of a statement vanish for exactly the
+    executors that disabled constraint checking - the batch is rolled back,
+    no error is reported, and the evolution is recorded as applied."""
+    ctx.rule(rule_id)
+    p = ctx.program
+    n = 0
+    for m in p.modules.values():
+        for c in m.classes.values():
+            f = c.methods.get('__exit__')
+            if f is None:
+                continue
+            n += 1
+            bad = [r for r in walk_no_nested(f.node)
+                   if isinstance(r, ast.Return) and r.value is not None and
+                   not (isinstance(r.value, ast.Constant) and
+                        r.value.value in (None, False))]
+            if bad:
+                for r in bad:
+                    ctx.finding(f, r, '%s.__exit__ returns %s: when that is '
+                                'true the exception raised inside the with '
+                                'block is suppressed and the caller carries '
+                                'on as if the block had succeeded' % (
+                                    c.name,
+                                    ' '.join(unparse(r.value).split())),
+                                key='exit-may-suppress')
+            else:
+                ctx.ok(f, '%s.__exit__ never returns a truthy value' % c.name)
+    ctx.floor('__exit__ methods in the package', n, 1)
+
+
 def run(ctx):
+    r10_exit_never_suppresses(ctx)
     r9_finally_does_not_swallow(ctx)
     r5b_new_transaction_flag_provenance(ctx)
     r8_deferred_sql_same_scope(ctx)
